@@ -1,6 +1,8 @@
 package main
 
 import (
+	_ "embed"
+	"encoding/json"
 	"strings"
 
 	"verif/harness/core"
@@ -26,6 +28,12 @@ func applyExclusions(qc *g7lib.QCfg) {
 	qc.NoDecScaleCompare = true // decimal-compare-right-operand-rounded-to-left-scale
 	qc.NoNullArith = true       // (guard, not a finding) NULL literal arithmetic is typed DOUBLE
 	qc.NoOnNullableInner = true // inner-join-on-nullable-side-conjunct-lost (F17)
+	qc.NoInnerAfterOuter = true // join-after-outer-join-filter-misplaced (F17 family)
+}
+
+// schemaExclusions switches on the schema generator's exclusions.
+func schemaExclusions(c *g7lib.Cfg) {
+	c.NoDecIndex = true // decimal-index-not-equal-drops-filter
 }
 
 func hasFeature(w *witness, f string) bool {
@@ -39,7 +47,47 @@ func hasFeature(w *witness, f string) bool {
 
 // classify gives a disagreement its signature: the failure mode plus the input class (join /
 // subquery / grouping / set-operator features). Known findings have dedicated matchers first.
-func classify(q *g7lib.Query, d *g7lib.Diff, w *witness, ev *g7lib.Evaluator) string {
+func classify(q *g7lib.Query, d *g7lib.Diff, w *witness, ev *g7lib.Evaluator, env *g7lib.Env) string {
+	// merge-join-wrong-result: the plan uses a [LeftOuter]MergeJoin and the same query on the same
+	// session with @@disable_merge_join = 1 agrees with the reference.
+	if strings.Contains(w.Plan, "MergeJoin") {
+		env.Sess.Exec("SET @@disable_merge_join = 1")
+		res := env.Sess.Exec(w.SQL)
+		env.Sess.Exec("SET @@disable_merge_join = 0")
+		if !res.Failed() {
+			if ref, err := ev.Query(q); err == nil && g7lib.Compare(q, res.Rows, ref) == nil {
+				return "merge-join-wrong-result"
+			}
+		}
+	}
+	// sort-elided-wrong-order: ORDER BY present, the plan has neither a Sort nor a TopN node (the sort
+	// was replaced by an index-ordered scan below a join) and the rows are the right multiset in the
+	// wrong order (or, under LIMIT, a wrong slice of the right multiset).
+	if q.SetOp == "" && len(q.OrderBy) > 0 && !strings.Contains(w.Plan, "Sort(") && !strings.Contains(w.Plan, "TopN(") {
+		if d.Mode == "order" {
+			return "sort-elided-wrong-order"
+		}
+		if d.Mode == "sequence" {
+			q0 := *q
+			q0.Offset, q0.Limit = -1, -1
+			if full, err := ev.Query(&q0); err == nil {
+				cnt := map[string]int{}
+				for _, k := range g7lib.RowKeys(full) {
+					cnt[k]++
+				}
+				ok := true
+				for _, k := range d.Extra {
+					if cnt[k] == 0 {
+						ok = false
+					}
+					cnt[k]--
+				}
+				if ok {
+					return "sort-elided-wrong-order"
+				}
+			}
+		}
+	}
 	// setop-offset-before-sort: a set operation with ORDER BY .. LIMIT n OFFSET m>0 whose engine
 	// result has the right length min(n, max(0, total-m)), is sorted on the keys and is a sub-multiset
 	// of the un-limited reference result, but is not the slice [m, m+n) (the engine skips m rows before
@@ -76,6 +124,34 @@ func classify(q *g7lib.Query, d *g7lib.Diff, w *witness, ev *g7lib.Evaluator) st
 	if q.SetOp == "EXCEPT" && q.Width() == 1 && len(d.Extra) == 0 && len(d.Missing) == 1 && d.Missing[0] == "''" && d.Mode == "missing-rows" {
 		return "except-phantom-empty-row"
 	}
+	if q.SetOp == "EXCEPT" && q.Width() == 1 && d.Mode == "sequence" {
+		// the same under LIMIT: the engine sequence is the un-limited reference sequence minus one '' , sliced
+		q0 := *q
+		q0.Offset, q0.Limit = -1, -1
+		if full, err := ev.Query(&q0); err == nil {
+			keys := g7lib.RowKeys(full)
+			for i, k := range keys {
+				if k == "''" {
+					keys = append(append([]string{}, keys[:i]...), keys[i+1:]...)
+					off := 0
+					if q.Offset > 0 {
+						off = q.Offset
+					}
+					if off > len(keys) {
+						off = len(keys)
+					}
+					keys = keys[off:]
+					if len(keys) > q.Limit {
+						keys = keys[:q.Limit]
+					}
+					if core.SameStrings(keys, d.Extra) {
+						return "except-phantom-empty-row"
+					}
+					break
+				}
+			}
+		}
+	}
 	return "mismatch:" + d.Mode + ":" + featureClass(w.Features)
 }
 
@@ -86,8 +162,67 @@ func classifyError(q *g7lib.Query, err error, w *witness) string {
 	case strings.HasPrefix(msg, "table not found: x") && hasFeature(w, "having"):
 		// residual of the domain exclusion (e.g. inside a subquery block)
 		return "having-scope-table-not-found"
+	case strings.HasPrefix(msg, "Out of range value for column of Decimal type") && onHasNegativeDecimal(q):
+		return "outer-join-on-negative-decimal-literal:out-of-range-error"
+	case strings.Contains(msg, "unable to find field with index") && (maxFrom(q) >= 3 || hasFeature(w, "subquery-in-on")):
+		return "planner:field-index-error"
+	case strings.Contains(msg, "failed to replan join: unknown type for rel output cols: *memo.TableAlias") && q.Depth() >= 2:
+		return "nested-subquery:replan-join-tablealias-error"
 	}
 	return "error:" + core.StripVolatile(msg)
+}
+
+// onHasNegativeDecimal reports whether some ON condition of an outer join compares with a negative
+// DECIMAL literal.
+func onHasNegativeDecimal(q *g7lib.Query) bool {
+	hit := false
+	var visit func(x *g7lib.Query)
+	visit = func(x *g7lib.Query) {
+		if x.SetOp != "" {
+			visit(x.L)
+			visit(x.R)
+			return
+		}
+		for _, f := range x.From {
+			if f.On != nil && (f.Join == "LEFT" || f.Join == "RIGHT") {
+				f.On.Walk(func(e *g7lib.Expr) {
+					if e.Op == "lit" && e.V.K == g7lib.KDec && e.V.N.Sign() < 0 {
+						hit = true
+					}
+				})
+			}
+		}
+		x.DirectSubqueries(visit)
+	}
+	visit(q)
+	return hit
+}
+
+// maxFrom is the largest FROM list of the query, nested blocks included.
+func maxFrom(q *g7lib.Query) int {
+	m := 0
+	var visit func(x *g7lib.Query)
+	visit = func(x *g7lib.Query) {
+		if x.SetOp != "" {
+			visit(x.L)
+			visit(x.R)
+			return
+		}
+		if len(x.From) > m {
+			m = len(x.From)
+		}
+		x.DirectSubqueries(visit)
+	}
+	visit(q)
+	return m
+}
+
+// classifyPanic maps a panic to its signature (signatures in the findings file cannot contain blanks).
+func classifyPanic(p *core.PanicInfo) string {
+	if p.Site == "sql/analyzer.replanJoin.func1" && strings.Contains(p.Value, "index out of range") {
+		return "panic:analyzer.replanJoin:index-out-of-range"
+	}
+	return strings.ReplaceAll(p.Sig(), " ", "_")
 }
 
 // ---- pinned witnesses ----
@@ -99,6 +234,11 @@ var pinSetup = []string{
 	"INSERT INTO t VALUES (4,10,3,10.00,'a ')", "INSERT INTO t VALUES (5,5,3,0.05,'b')",
 	"INSERT INTO u VALUES (1,1,1,1.50,'a')", "INSERT INTO u VALUES (2,NULL,2,NULL,'B')", "INSERT INTO u VALUES (3,3,2,2.25,NULL)",
 	"INSERT INTO u VALUES (4,7,7,7.00,'')",
+	"CREATE TABLE v (id INT NOT NULL, d DECIMAL(8,2), PRIMARY KEY (id), KEY kd (d))",
+	"INSERT INTO v VALUES (1,1.50)", "INSERT INTO v VALUES (2,NULL)", "INSERT INTO v VALUES (3,2.25)", "INSERT INTO v VALUES (4,10.00)",
+	"CREATE TABLE w (id INT NOT NULL, a INT, b INT, d DECIMAL(8,2), s VARCHAR(8) COLLATE utf8mb4_0900_bin, PRIMARY KEY (id), KEY k0 (a), KEY k2 (a, b), KEY k3 (s))",
+	"INSERT INTO w VALUES (-2, -1, -1, 0.05, 'b')", "INSERT INTO w VALUES (-1, 2, 10, 2.25, 'a')", "INSERT INTO w VALUES (0, NULL, 10, 1.00, '1')", "INSERT INTO w VALUES (1, 2, -1, NULL, '1')",
+	"INSERT INTO w VALUES (2, 3, NULL, 2.00, '')", "INSERT INTO w VALUES (4, 1, NULL, 2.00, '0')", "INSERT INTO w VALUES (5, 0, 3, 10.00, 'ab')", "INSERT INTO w VALUES (6, 1, 0, 10.00, 'Ab')",
 }
 
 type pin struct {
@@ -124,7 +264,7 @@ func pins() []pin {
 		mk("coalesce-decimal-args-forced-to-one-scale", "COALESCE over DECIMAL arguments of different precision/scale rounds the value to one argument's type (or fails with out-of-range)",
 			"SELECT x.id AS c0 FROM t x WHERE (COALESCE(x.d, 0.0) = 2.25)", false, "3"),
 		mk("subquery-outer-only-conjunct-hoisted", "a subquery WHERE conjunct that references only outer columns is evaluated as a filter of the outer query (wrong for NOT IN / NOT EXISTS / scalar aggregates / NULL)",
-			"SELECT x.id AS c0 FROM t x WHERE (x.b >= (SELECT COUNT(*) AS c0 FROM u y WHERE (x.s <> 'a')))", false, "1", "3"),
+			"SELECT x.id AS c0 FROM u x WHERE (x.b IN (SELECT (COUNT(*) + 1) AS c0 FROM t y WHERE (x.s = 'zzz')))", false, "1"),
 		mk("hash-equality-decimal-scale", "IN (subquery), set operations and DISTINCT compare DECIMAL values of different scale (2.25 vs 2.2500) and INT vs BOOLEAN as unequal",
 			"SELECT x.id AS c0 FROM t x WHERE (x.d IN (SELECT (y.d * 1.00) AS c0 FROM u y))", false, "1", "3"),
 		mk("lookup-join-int-index-decimal-key-rounded", "INT column = DECIMAL column as a join condition: the lookup into the integer index rounds the decimal key (2 matches 1.50 and 2.25)",
@@ -133,6 +273,14 @@ func pins() []pin {
 			"SELECT x.id AS c0 FROM t x WHERE (x.d = ((x.d * x.d) + x.d))", false),
 		mk("inner-join-on-nullable-side-conjunct-lost", "a LEFT JOIN b .. INNER JOIN c ON (.. AND <predicate on b>): join reordering drops the conjunct on the nullable table (F17)",
 			"SELECT x.id AS c0, z.id AS c1 FROM t x LEFT JOIN u y ON (x.b = y.b) INNER JOIN u z ON ((x.id = z.b) AND (y.a <> y.d))", false, "1|1", "2|2", "2|3"),
+		mk("decimal-index-not-equal-drops-filter", "dec_col <> literal (or NOT (dec_col = literal)) on a DECIMAL column with a secondary index: the index range becomes (NULL, inf) and the conjunct disappears, so the row equal to the literal is returned",
+			"SELECT x.id AS c0 FROM v x WHERE (x.d <> 2.25)", false, "1", "4"),
+		mk("outer-join-on-negative-decimal-literal:out-of-range-error", "LEFT/RIGHT JOIN whose ON has col = <negative DECIMAL literal> next to an equi-join key fails with 'Out of range value for column of Decimal type'",
+			"SELECT x.id AS c0, y.id AS c1 FROM u x LEFT JOIN t y ON ((x.id = y.b) AND (y.d = (-1.50)))", false, "1|NULL", "2|NULL", "3|NULL", "4|NULL"),
+		mk("merge-join-wrong-result", "[LeftOuter]MergeJoin over two index scans returns wrong rows / wrong order (agrees with the reference once @@disable_merge_join = 1)",
+			"SELECT x6.s AS c0, (x6.b * x6.a) AS c1, x6.d AS c2, COALESCE(x7.s, x6.s) AS c3 FROM w x6 INNER JOIN w x7 ON (x6.s = x7.s) WHERE (x6.d IN (10.00, 0.05, 3.00)) ORDER BY 1 DESC", false, "'b'|1|0.05|'b'", "'ab'|0|10|'ab'", "'Ab'|0|10|'Ab'"),
+		mk("join-after-outer-join-filter-misplaced", "(a CROSS JOIN b) RIGHT JOIN c ON .. WHERE p(a,b): the WHERE conjunct is pushed below the outer join, NULL-padded rows that WHERE must remove survive (F17 family)",
+			"SELECT z.id AS c0, x.id AS c1 FROM t x CROSS JOIN u y RIGHT JOIN u z ON (y.d = z.d) WHERE (x.s = y.s)", false, "1|1"),
 		mk("except-phantom-empty-row", "single-column EXCEPT [ALL] removes one row '' (empty string) too many: ExceptIter hashes the nil row returned with io.EOF",
 			"(SELECT x.s AS c0 FROM u x) EXCEPT ALL (SELECT y.s AS c0 FROM t y)", false, "'B'", "''"),
 		mk("constant-false-on-with-subquery", "a join whose ON condition is constant false combined with a subquery predicate fails ('failed to replan join: ... *memo.EmptyTable' / 'unable to find field with index')",
@@ -140,8 +288,29 @@ func pins() []pin {
 	}
 }
 
+//go:embed pins.json
+var pinsJSON []byte
+
+// filePins are pinned witnesses that need their own generated schema (kept verbatim in pins.json).
+func filePins() []pin {
+	var raw []struct {
+		Sig, What, Case, SQL string
+		Setup, Expected     []string
+		Sequence            bool
+		OrderBy             []g7lib.OrderKey
+	}
+	if err := json.Unmarshal(pinsJSON, &raw); err != nil {
+		panic("pins.json: " + err.Error())
+	}
+	var out []pin
+	for _, x := range raw {
+		out = append(out, pin{x.Sig, x.What, witness{Case: x.Case, Setup: x.Setup, SQL: x.SQL, Expected: x.Expected, Sequence: x.Sequence, OrderBy: x.OrderBy}})
+	}
+	return out
+}
+
 func pinned(r *core.Run) {
-	for _, p := range pins() {
+	for _, p := range append(pins(), filePins()...) {
 		fails, got, errText := rerun(&p.w)
 		w := p.w
 		w.Actual, w.Error = got, errText
